@@ -137,6 +137,10 @@ otherwise what is missing to the next multiple of the boundary -/
 def padOf (packed : Bool) (ab n : Nat) : Nat :=
   if !packed && ab > 1 then (if n % ab ≠ 0 then ab - n % ab else 0) else 0
 
+/-- the largest page payload: payload plus page header must be a representable byte count
+(`SIZE_MAX - sizeof(PageInfo)`); larger pools are rejected, larger pages are never added -/
+def pageLimit : Nat := 2 ^ 64 - 1 - 16
+
 structure DPool where
   fixed  : Bool
   packed : Bool
@@ -169,6 +173,7 @@ def malloc (grow : Nat → Nat) (fresh : Nat) (s : DPool) (n : Nat) (refused : B
   if span ≤ s.top.size - s.topUsed then
     (some (s.pages.length - 1, s.topUsed), s.pushBlock ⟨s.topUsed, n, span⟩)
   else if s.fixed || span > grow s.top.size then (none, s)
+  else if grow s.top.size > pageLimit then (none, s)
   else if refused then (none, s)
   else
     let pg : PPage := { size := grow s.top.size, bytes := List.replicate (grow s.top.size) fresh, blocks := [⟨0, n, span⟩] }
